@@ -855,11 +855,42 @@ Section Kickstart.
     intros ds1 ds2 acc H. apply G. exact H.
   Qed.
 
+  (* the epochs-context part does not consult the signature oracle either (fuelled loops: by induction, not by conversion) *)
+  Lemma proposer_outer_env : forall k vals active seed i,
+    proposer_outer E k vals active seed i = proposer_outer EA k vals active seed i.
+  Proof. intros. reflexivity. Qed.     (* generic fuel: the two fixpoint bodies are compared, no iteration is unfolded *)
+  Lemma compute_proposers_env vals active sd start :
+    compute_proposers_impl E vals active sd start = compute_proposers_impl EA vals active sd start.
+  Proof.
+    unfold compute_proposers_impl. change (Hash EA) with (Hash E). change (cfg EA) with (cfg E).
+    destruct (_ =? 0); [reflexivity|]. apply (f_equal ok_all). apply map_ext. intros i.
+    unfold compute_proposer_index_impl. destruct (_ =? 0); [reflexivity|]. apply proposer_outer_env.
+  Qed.
+  Lemma load_epc_env st : load_epc E st = load_epc EA st.
+  Proof.
+    unfold load_epc.
+    change (go_get_seed EA) with (go_get_seed E). change (new_shuffling_epoch EA) with (new_shuffling_epoch E).
+    destruct (go_get_seed E st GENESIS_EPOCH DOMAIN_BEACON_ATTESTER) as [s0| | | |]; cbn [bind]; [|reflexivity..].
+    destruct (new_shuffling_epoch E _ _ GENESIS_EPOCH) as [cur| | | |]; cbn [bind]; [|reflexivity..].
+    destruct (go_get_seed E st (GENESIS_EPOCH + 1) DOMAIN_BEACON_ATTESTER) as [s1| | | |]; cbn [bind]; [|reflexivity..].
+    destruct (new_shuffling_epoch E _ _ (GENESIS_EPOCH + 1)) as [nxt| | | |]; cbn [bind]; [|reflexivity..].
+    destruct (go_get_seed E st GENESIS_EPOCH DOMAIN_BEACON_PROPOSER) as [ps| | | |]; cbn [bind]; [|reflexivity..].
+    rewrite compute_proposers_env. reflexivity.
+  Qed.
+
   Lemma genesis_from_eth1_ignore hash time ds1 ds2 : Forall2 (fun a b => vfield a 1 = vfield b 1) ds1 ds2 ->
     genesis_from_eth1 E pk_ok sig_ok hash time ds1 true = genesis_from_eth1 EA pk_ok sig_ok hash time ds2 true.
   Proof.
     intros H. unfold genesis_from_eth1.
-    rewrite (deposit_loop_ignore ds1 ds2 _ H). rewrite (Forall2_len _ _ _ H). reflexivity.
+    rewrite (deposit_loop_ignore ds1 ds2 _ H). rewrite (Forall2_len _ _ _ H).
+    change (genesis_pre_state EA) with (genesis_pre_state E).
+    destruct (deposit_loop EA pk_ok sig_ok true ds2 _) as [[[st roots] pc]| | | |]; cbn [bind]; [|reflexivity..].
+    change (update_dep_tree_root EA) with (update_dep_tree_root E). change (cfg EA) with (cfg E).
+    destruct (check _) as [u| | | |]; cbn [bind]; [|reflexivity..].
+    change (activation_loop EA) with (activation_loop E).
+    destruct (activation_loop E _ _) as [vals| | | |]; cbn [bind]; [|reflexivity..].
+    change (Helpers.htr EA) with (Helpers.htr E).
+    rewrite load_epc_env. reflexivity.
   Qed.
 
   Definition kick_pubkey (v : kick_data) : bytes := fst (fst v).
@@ -934,6 +965,14 @@ Proof.
   intros l H. do 9 (destruct l as [|? l]; try discriminate). reflexivity.
 Qed.
 
+Lemma N_of_byte_lt i : N_of_byte i < 256.
+Proof.
+  unfold N_of_byte, bitN.
+  repeat match goal with |- context [if ?b then _ else _] => destruct b end; reflexivity.
+Qed.
+Lemma sha256_bytes x : Forall (fun b => b < 256) (sha256 x).
+Proof. unfold sha256. apply Forall_forall. intros b Hb. apply in_map_iff in Hb. destruct Hb as (i & <- & _). apply N_of_byte_lt. Qed.
+
 Lemma pubkey_wf_b pk : (Nat.eqb (length pk) 48 && forallb (fun b => b <? 256) pk = true) -> pubkey_wf pk.
 Proof.
   intros H. apply andb_true_iff in H. destruct H as [H1 H2]. split; [apply Nat.eqb_eq; exact H1|].
@@ -990,7 +1029,7 @@ Module GenesisExample.
 
   Lemma ex_hyps :
     (forall x, length (Hash ex_env x) = 32%nat) /\ length (zero_hashes ex_env 2) = 32%nat /\
-    0 < EFFECTIVE_BALANCE_INCREMENT (cfg ex_env) /\ 0 < SLOTS_PER_EPOCH (cfg ex_env) /\
+    0 < EFFECTIVE_BALANCE_INCREMENT (cfg ex_env) /\ epc_params_ok ex_env /\
     verify_decodes ex_env ex_pk_ok ex_sig_ok /\
     990 + GENESIS_DELAY (cfg ex_env) < two64 /\
     N.of_nat (length ex_deposits) <= DEPOSIT_ROOTS_LIMIT /\
@@ -998,7 +1037,9 @@ Module GenesisExample.
     sumN (map dep_amount ex_deposits) < two64 /\ Forall (fun d => pubkey_wf (dep_pubkey d)) ex_deposits.
   Proof.
     split; [exact sha256_length|]. split; [vm_compute; reflexivity|].
-    split; [vm_compute; reflexivity|]. split; [vm_compute; reflexivity|].
+    split; [vm_compute; reflexivity|].
+    split.
+    { constructor; [vm_compute; discriminate|exact sha256_bytes|vm_compute; reflexivity..]. }
     split.
     { intros pk m s H. unfold ex_env, ex_verify in H. cbn [bls_verify] in H.
       apply andb_true_iff in H. destruct H as [H _]. apply andb_true_iff in H. exact H. }
